@@ -156,9 +156,13 @@ theorem transmit_emitted_seq (b : Int) (f : Nat) (t0 : Tx) (hf : t0.forwardTsn =
     obtain ⟨j, j1, j2, j3⟩ := Seq.mem hseq' hmem
     exact ⟨j, j1, j2, j3⟩
 
+/-- the pending FORWARD TSN as a chunk on the wire -/
+def fwdArr : Option (Int × List (Nat × Int)) → List Arrival
+  | some p => [Arrival.fwd p.1 p.2]
+  | none => []
+
 theorem arrOf_transmit (t : Tx) :
-    arrOf t.transmit.2 = (match t.forwardTsn with | some p => [Arrival.fwd p.1 p.2] | none => [])
-      ++ (dataOf t.fwd.1.transmit.2).map Arrival.data := by
+    arrOf t.transmit.2 = fwdArr t.forwardTsn ++ (dataOf t.fwd.1.transmit.2).map Arrival.data := by
   obtain ⟨e1, e2, _⟩ := transmit_events t
   unfold arrOf
   rw [e1, e2]
@@ -173,7 +177,7 @@ theorem transmit_arrOk {b : Int} {κ f : Nat} {t : Tx} (h : TxSeqP b κ f t) :
     | none => rw [hp] at ha; cases ha
     | some p =>
       rw [hp] at ha
-      simp only [List.mem_singleton] at ha
+      simp only [fwdArr, List.mem_singleton] at ha
       subst ha
       obtain ⟨c, c1, c2⟩ := h.fwdv p hp
       exact ⟨c, c1, c2⟩
